@@ -188,6 +188,25 @@ def r2(ctx: Ctx):
       ctx.fail(rule, f2, f'{qn}: if self._lazy_result: result = LazyObject.new(result)',
                'the lazy_result flag no longer decides whether the value or a'
                ' handle to it is returned', node=f2.node)
+  nw = repo.func(LF, 'LazyFn.new')
+  reorder = None
+  for x in walk_no_nested(nw.node):
+    if isinstance(x, ast.Call) and unparse(x.func) in ('sorted', 'reversed', 'set', 'frozenset',
+                                                     'dict.fromkeys'):
+      names = {y.id for y in ast.walk(x) if isinstance(y, ast.Name)}
+      if names & {'args', 'kwargs'}:
+        reorder = x
+  ctor = [c for c in walk_no_nested(nw.node) if isinstance(c, ast.Call) and unparse(c.func) == 'cls']
+  shape = ctor and unparse(kwarg(ctor[0], 'args')) == 'tuple(args)' and (
+      'items()' in unparse(kwarg(ctor[0], 'kwargs')) or isinstance(kwarg(ctor[0], 'kwargs'), ast.Call))
+  if reorder is not None or not ctor:
+    ctx.fail(rule, nw, (reorder if reorder is not None else nw.node),
+             'LazyFn.new reorders (or de-duplicates) the traced arguments:'
+             ' lazy arguments are then evaluated, and passed to the callee, in'
+             ' an order different from the eager call — results differ whenever'
+             ' evaluation order is observable', node=reorder if reorder is not None else nw.node)
+  else:
+    ctx.ok(rule, nw, 'traced args/kwargs kept in call order', ctor[0])
   m = repo.func(LF, '_maybe_make')
   txt = unparse(m.node)
   p = m.params()[0]
@@ -344,6 +363,8 @@ from mlmverif.selfcheck import B, OK  # noqa: E402
 _L = 'chainables/lazy_fns.py'
 _F = 'utils/func_utils.py'
 VARIANTS = [
+    B('kwargs-sorted', _L, '        kwargs=tuple((kwargs or {}).items()),',
+      '        kwargs=tuple(sorted((kwargs or {}).items())),', 'R-C17-2'),
     B('uncached-reads-cache', _L, '      else:\n        return fn(x)\n\n    wrapped_fn.cache_info',
       '      else:\n        if x in lazy_obj_cache:\n          return lazy_obj_cache[x]\n        return fn(x)\n\n    wrapped_fn.cache_info',
       'R-C17-1'),
